@@ -50,6 +50,17 @@ func runKV(c *sim.Ctx) {
 	if err != nil {
 		sim.Harnessf("kv NewManager on an empty directory: %v", err)
 	}
+	// the very first start writes the (empty) storage files: a crash anywhere in there must not keep the manager
+	// from starting the next time
+	for _, st := range fs.crashStates() {
+		c.Count("crash.states")
+		d := fmt.Sprintf("%s/kvfirst", c.Dir)
+		materialise(d, st)
+		if _, err := kvView(d); err != nil {
+			c.Violate("crash-node-does-not-start", "kv:first-start:"+stateKind(st.label), "after a crash during the first start of the storage manager at [%s] it cannot start: %v", st.label, err)
+			return
+		}
+	}
 	steps := t.Range("kv-steps", 4, 25)
 	c.Sample = append(c.Sample, fmt.Sprintf("kv storage history of %d operations", steps))
 	scratch := 0
